@@ -540,6 +540,29 @@ def index_programs():
     body = _body(["var a: u32;", "@LOAD{a|s.d|ix[0]|3u|0u}", "o[0] = a;"])
     add("value_struct_member_array", "struct VS { d: array<u32, 3>, t: u32 }\n" + HDR % "u32"
         + "fn mk(x: u32) -> VS { return VS(array<u32, 3>(x, x + 1u, x + 2u), 9u); }\n" + EP % ("  let s = mk(o[8]);\n" + body), "index", [3])
+    # ---- L: DERIVED index expressions - forms a compiler may be tempted to prove in range statically and leave unguarded
+    #      (i % n, i & mask, min / clamp, shifts ...), signed and unsigned, on every kind of object the Restrict / index policy
+    #      governs; every form is used for one load and one store of the same program
+    forms_i = ["(IX % 4)", "(IX % 3)", "(IX & 3)", "(IX / 2)", "(IX >> 1u)", "abs(IX)", "min(IX, 3)", "max(IX, 0)", "clamp(IX, 0, 3)",
+               "(IX - 1)", "(-IX)", "select(IX, 0, IX > 3)", "(IX % 4 + 0)", "(3 - IX % 4)"]
+    forms_u = ["(IX % 4u)", "(IX & 3u)", "(IX >> 30u)", "min(IX, 3u)", "(IX - 1u)", "(IX + 1u)", "(~IX)", "(IX / 1073741824u)",
+               "(3u - IX % 4u)", "(IX % 5u)"]
+    for sg, forms in (("i32", forms_i), ("u32", forms_u)):
+        objs = [("function_array", "", "var la = array<u32, 4>(1u, 2u, 3u, 4u);", "la", 4, "u32", "0u", "%du", "{x}", "index"),
+                ("private_array", "var<private> la: array<u32, 4>;\n", "la[1] = 2u; la[3] = 4u;", "la", 4, "u32", "0u", "%du", "{x}", "index"),
+                ("workgroup_array", "var<workgroup> la: array<u32, 4>;\n", "la[1] = 2u; la[3] = 4u;", "la", 4, "u32", "0u", "%du", "{x}", "index"),
+                ("function_vec4", "", "var la = vec4<u32>(1u, 2u, 3u, 4u);", "la", 4, "u32", "0u", "%du", "{x}", "index"),
+                ("function_mat4x2", "", "var la = mat4x2<f32>(1.5, 2.5, 3.5, 4.5, 5.5, 6.5, 7.5, 8.5);", "la", 4, "vec2<f32>", "vec2<f32>()",
+                 "vec2<f32>(%d.5, 9.5)", "(bitcast<u32>({x}.x) + 3u * bitcast<u32>({x}.y))", "index"),
+                ("storage_array", "@group(0) @binding(2) var<storage, read_write> la: array<u32, 4>;\n", "", "la", 4, "u32", "0u", "%du", "{x}", "buffer")]
+        for on, decl, init, obj, n, ety, zero, valf, proj, kind in objs:
+            lines = [init, "var a: %s; var acc = 0u;" % ety] if init else ["var a: %s; var acc = 0u;" % ety]
+            for k, f in enumerate(forms):
+                lines.append("@LOAD{a|%s|%s|%du|%s}" % (obj, f.replace("IX", "ix[0]"), n, zero))
+                lines.append("acc = acc * 31u + %s;" % proj.format(x="a"))
+                lines.append("@STORE{%s|%s|%du|%s}" % (obj, f.replace("IX", "ix[1]"), n, valf % (70 + k)))
+            lines.append("o[0] = acc; " + dump(obj, n, proj))
+            add("derived_%s_%s" % (on, sg), decl + HDR % sg + EP % _body(lines), kind, [n], signed=(sg == "i32"), family="derived-index")
     return P
 
 
